@@ -32,7 +32,8 @@ BindMsg(kind, nc, nt, a) ==
 Res(i) == [result |-> i % 4, reason |-> i, uuid |-> Fill(i, 16), ver |-> Fill(i + 1, 4)]
 AckMsg(kind, sl, nr, a) ==
   Fix([kind |-> kind, hdr |-> Hdr(kind, 7, a), sec |-> SecOf(a), max_xmit |-> 5840, max_recv |-> 5840,
-       assoc |-> Fill(sl, 4), sec_addr |-> [i \in 1 .. sl |-> 48 + i], results |-> [i \in 1 .. nr |-> Res(i)]])
+       assoc |-> Fill(sl, 4), sec_addr |-> [i \in 1 .. sl |-> 48 + i],
+       sa_pad |-> SubSeq(<<0, 52, 57>>, 1, PadTo(2 + (IF sl = 0 THEN 0 ELSE sl + 1), 4)), results |-> [i \in 1 .. nr |-> Res(i)]])
 NakMsg(nv) ==
   Fix([kind |-> "bind_nak", hdr |-> Hdr("bind_nak", 3, 0), sec |-> <<>>, reason |-> nv + 1,
        versions |-> [i \in 1 .. nv |-> <<5, i - 1>>]])
@@ -97,7 +98,7 @@ Alignment ==     \* the padding rules keep the variable parts 4-byte aligned
 
 (* ---- decoder loops as a step machine ------------------------------------------------------- *)
 SetCount(body, off, n) == [body EXCEPT ![off + 1] = n]
-Trunc(b, n) == SubSeq(b, 1, Min(n, Len(b)))
+Trunc(b, n) == SubSeq(b, 1, Min2(n, Len(b)))
 BindBodies ==
   {[loop |-> "ctx", what |-> "count", start |-> 12, b |-> Trunc(SetCount(EncBindBody(BindMsg("bind", nc, 1, 0)), 8, ann), cut)] :
       nc \in 0 .. 3, ann \in {0, 1, 2, 3, 4, 255}, cut \in {12, 35, 36, 60, 1000}}
@@ -132,10 +133,12 @@ Wire(cs) ==    \* the bytes handed to the real decoder: a whole PDU around the b
     [] cs.loop = "ctx" -> EncHeader([Hdr("bind", 3, 0) EXCEPT !.frag_len = 16 + Len(cs.b)]) \o cs.b
     [] cs.loop = "res" -> EncHeader([Hdr("bind_ack", 3, 0) EXCEPT !.frag_len = 16 + Len(cs.b)]) \o cs.b
     [] cs.loop = "ver" -> EncHeader([Hdr("bind_nak", 3, 0) EXCEPT !.frag_len = 16 + Len(cs.b)]) \o cs.b
-LEmit ==
-  /\ ph = "run" /\ s.done /\ ph' = "done" /\ UNCHANGED <<c, s>>
-  /\ PrintT(<<"CASE", ToJson([loop |-> c.loop, what |-> c.what, wire |-> Wire(c), ok |-> s.ok, iters |-> s.iters,
-                              nitems |-> Len(s.items)])>>)
+LEmit == ph = "run" /\ s.done /\ ph' = "done" /\ UNCHANGED <<c, s>>
+(* emission as an invariant: evaluated exactly once per distinct terminal state *)
+EmitCase ==
+  ph = "done" =>
+    PrintT(<<"CASE", ToJson([loop |-> c.loop, what |-> c.what, wire |-> Wire(c), ok |-> s.ok, iters |-> s.iters,
+                             nitems |-> Len(s.items)])>>)
 LNext == LStep \/ LEmit
 LSpec == LInit /\ [][LNext]_vars /\ WF_vars(LNext)
 
